@@ -1,7 +1,9 @@
 //! One module per family of properties; `run` dispatches a check, `replay` re-executes a saved case.
 
 pub mod conc;
+pub mod crash;
 pub mod diff;
+pub mod fault;
 pub mod http;
 pub mod iso;
 pub mod payload;
@@ -11,12 +13,14 @@ pub mod urgency;
 use crate::engine::{CheckResult, Fail, Report, Stats, Tier};
 use serde_json::Value;
 
-pub const ALL: &[&str] = &["C01", "C02", "C03", "C06", "C07", "C08", "C09", "C10", "C11", "C12", "C13", "C14", "C15", "C16", "C18", "C20"];
+pub const ALL: &[&str] = &["C01", "C02", "C03", "C04", "C05", "C06", "C07", "C08", "C09", "C10", "C11", "C12", "C13", "C14", "C15", "C16", "C18", "C20"];
 
 pub fn run(id: &str, tier: Tier, seed: u64) -> Option<Report> {
     match id {
         "C01" | "C02" | "C07" | "C08" | "C10" | "C11" | "C18" => Some(seq::run(id, tier, seed)),
         "C03" => Some(conc::run(tier, seed)),
+        "C04" => Some(crash::run(tier, seed)),
+        "C05" => Some(fault::run(tier, seed)),
         "C06" => Some(payload::run(tier, seed)),
         "C09" => Some(iso::run(tier, seed)),
         "C12" => Some(urgency::run(tier, seed)),
@@ -30,6 +34,11 @@ fn replay_case(prop: &str, kind: &str, case: &Value, st: &mut Stats) -> Option<C
     Some(match prop {
         "C01" | "C02" | "C07" | "C08" | "C10" | "C11" | "C18" => seq::replay(prop, kind, case, st),
         "C03" => conc::replay(kind, case, st),
+        "C04" => crash::replay(kind, case, st)?,
+        "C05" => match fault::replay(kind, case, st) {
+            Some(r) => r,
+            None => crash::replay(kind, case, st)?,
+        },
         "C06" => payload::replay(kind, case, st),
         "C09" => iso::replay(kind, case, st),
         "C12" => urgency::replay(kind, case, st),
